@@ -466,10 +466,12 @@ class ProgGen:
                 n_ = r.randint(2, 3)
                 c1, c2 = ["lit", r.randrange(n_)], ["lit", r.randrange(n_)]
                 slot = ["idx2", nm, c1, c2]
+                # the same column of another row must be untouched by the store
+                other = ["idx2", nm, ["lit", (c1[1] + 1) % n_], c2]
                 tpl = [
                     ["decl", ["sq", n_], nm, None],
                     ["assign", slot, "=", ["bin", "+", slot, ["lit", r.randint(1, 3)]]],
-                    ["assign", g, "=", ["bin", "+", g, slot]],
+                    ["assign", g, "=", ["bin", "+", ["bin", "+", g, slot], other]],
                 ]
             else:
                 # nested aggregate: struct holding a struct and an array
